@@ -141,8 +141,19 @@ func (ex *Exec) callByKey(fr *Frame, key string, callee *ssa.Function, args, bin
 		return
 	}
 	if callee != nil && inRepo(callee) && len(callee.Blocks) > 0 {
-		if fr.depth >= maxInlineDepth || contains(fr.callStack, key) {
-			ex.unsupp("cannot inline %s (depth/recursion) and it has no contract", key)
+		if fr.depth >= maxInlineDepth {
+			ex.unsupp("cannot inline %s (depth) and it has no contract", key)
+		}
+		if n := countOf(fr.callStack, key); n > 0 {
+			// a recursive function without a contract: inlined up to recursionBound nested
+			// activations, deeper recursion is cut (bounded, reported as such)
+			if n >= recursionBound {
+				if ex.bounded == nil {
+					ex.bounded = map[string]int{}
+				}
+				ex.bounded[key+" (recursion)"] = recursionBound
+				return
+			}
 		}
 		ex.inlined[key] = true
 		ex.pendingN = ex.iterAt(fr, site)
@@ -180,6 +191,18 @@ func (ex *Exec) iterAt(fr *Frame, at ssa.Instruction) *Value {
 		}
 	}
 	return fr.outerN
+}
+
+const recursionBound = 3
+
+func countOf(xs []string, x string) int {
+	n := 0
+	for _, y := range xs {
+		if y == x {
+			n++
+		}
+	}
+	return n
 }
 
 func contains(xs []string, x string) bool {
@@ -303,12 +326,15 @@ func (ex *Exec) builtin(fr *Frame, st *State, site ssa.Instruction, b *ssa.Built
 }
 
 func (ex *Exec) builtinAppend(fr *Frame, st *State, site ssa.Instruction, common *ssa.CallCommon, args []Value) Value {
-	s, t := args[0], args[1]
-	st0 := common.Args[0].Type()
-	elem := st0.Underlying().(*types.Slice).Elem()
 	if _, ok := common.Args[1].Type().Underlying().(*types.Slice); !ok {
 		ex.unsupp("append of string")
 	}
+	return ex.appendSlices(st, common.Args[0].Type(), args[0], args[1])
+}
+
+// appendSlices: append(s, t...) for slices s, t of type st0.
+func (ex *Exec) appendSlices(st *State, st0 types.Type, s, t Value) Value {
+	elem := st0.Underlying().(*types.Slice).Elem()
 	n := t.Len()
 	newLen := Add(s.Len(), n)
 	fits := Le(newLen, s.Cap())
@@ -441,6 +467,34 @@ func (ex *Exec) bindResults(env *Env, c *Contract, callee *ssa.Function, res Val
 		}
 	} else if len(names) == 1 && names[0] != "" && names[0] != "_" {
 		env.vars[names[0]] = res
+	}
+	// result names the function had on the baseline tree (a named result may have been dropped or
+	// introduced since), and the conventional name of a trailing error result
+	if callee != nil {
+		var base []string
+		if b := baseNames[fnKeyOf(callee)]; b != nil {
+			base = b.Results
+		}
+		bind := func(i int, name string) {
+			if name == "" || name == "_" {
+				return
+			}
+			if _, has := env.vars[name]; has {
+				return
+			}
+			if v, ok := env.vars[fmt.Sprintf("ret%d", i)]; ok {
+				env.vars[name] = v
+			} else if i == 0 {
+				env.vars[name] = res
+			}
+		}
+		for i, n := range base {
+			bind(i, n)
+		}
+		rs := callee.Signature.Results()
+		if rs.Len() > 0 && types.Identical(rs.At(rs.Len()-1).Type(), errType) {
+			bind(rs.Len()-1, "err")
+		}
 	}
 }
 
